@@ -20,14 +20,14 @@ TIERS = {
         plan={"ASSGN2": (8, 30, 7, 19, 3, 7, 5, 7, 3), "XMLISH": (7, 30, 6, 20, 3, 9, 5, 7, 3), "CSVISH": (8, 22, 7, 16, 3, 6, 5, 7, 3),
               "NULLABLE": (8, 16, 7, 13, 3, 6, 4, 6, 3), "LEFTREC": (7, 22, 6, 16, 3, 6, 4, 6, 3), "AMBIG": (6, 15, 5, 13, 3, 5, 3, 5, 3),
               "RIGHTREC": (8, 20, 7, 16, 3, 6, 3, 5, 3), "MULTICHAR": (3, 8, 3, 8, 2, 3, 2, 3, 2),
-              "PAIRS": (6, 16, 5, 13, 3, 6, 4, 6, 3)},
+              "PAIRS": (6, 16, 5, 13, 3, 6, 4, 6, 3), "MARKUP": (6, 14, 5, 12, 3, 6, 4, 6, 3), "REENTRANT": (7, 12, 6, 10, 4, 6, 6, 8, 4)},
         cap=20, task_timeout=300),
     "thorough": dict(
         plan={"ASSGN2": (9, 34, 8, 22, 4, 9, 26, 40, 6), "XMLISH": (8, 34, 7, 24, 3, 9, 26, 40, 6), "CSVISH": (8, 24, 7, 18, 3, 7, 26, 40, 6),
               "NULLABLE": (10, 20, 9, 17, 3, 6, 12, 24, 6), "LEFTREC": (8, 24, 7, 18, 3, 6, 16, 30, 6), "AMBIG": (7, 17, 6, 15, 3, 5, 12, 30, 5),
               "RIGHTREC": (9, 24, 8, 18, 3, 6, 12, 30, 5), "NUM": (8, 20, 7, 16, 3, 6, 12, 30, 5), "LENGTHS": (8, 20, 7, 16, 3, 6, 12, 30, 5),
               "TWOSTART": (10, 20, 9, 17, 3, 5, 8, 12, 4), "MULTICHAR": (3, 8, 3, 8, 2, 3, 5, 8, 3),
-              "PAIRS": (7, 20, 6, 16, 3, 7, 12, 24, 5)},
+              "PAIRS": (7, 20, 6, 16, 3, 7, 12, 24, 5), "MARKUP": (7, 18, 6, 15, 3, 7, 12, 24, 5), "REENTRANT": (8, 16, 7, 13, 4, 7, 16, 30, 6)},
         cap=60, task_timeout=900),
 }
 MASKS = list(range(8))
